@@ -736,3 +736,95 @@ def gen_gfx(r):
         loca += b"\0" * (4 - len(loca))
     gids = list(range(0, n + 2)) + [65535]
     return (1 if long_fmt else 0), nl, loca, glyf, hmtx, gids
+
+
+def mutate_gfx_tables(r, tabs):
+    """tabs: dict of the six graphics tables (bytes); one of them changed in a number the loader looks at, cut short, or removed"""
+    tabs = dict(tabs)
+    k = r.choice(["head", "head", "hhea", "hmtx", "maxp", "maxp", "glyf", "loca", "loca", "cmap", "cmap"])
+    b = bytearray(tabs.get(k, b""))
+    m = r.random()
+    if m < 0.12:
+        b = bytearray()
+    elif m < 0.3 and b:
+        b = b[: r.choice([0, 3, 4, 9, 10, 31, 32, 35, 36, 53, 54, max(0, len(b) - 1), max(0, len(b) - 2), r.randrange(len(b) + 1)])]
+    elif k == "head" and len(b) >= 54:
+        o, n = r.choice([(0, 4), (12, 4), (18, 2), (50, 2), (52, 2)])
+        v = int.from_bytes(b[o:o + n], "big")
+        b[o:o + n] = (r.choice([0, 1, 2, v + 1, 0xFFFF, v ^ 1]) & ((1 << (8 * n)) - 1)).to_bytes(n, "big")
+    elif k == "hhea" and len(b) >= 36:
+        o, n = r.choice([(0, 4), (32, 2), (34, 2)])
+        v = int.from_bytes(b[o:o + n], "big")
+        b[o:o + n] = (r.choice([0, 1, v + 1, max(0, v - 1), 0xFFFF, v + 5]) & ((1 << (8 * n)) - 1)).to_bytes(n, "big")
+    elif k == "maxp" and len(b) >= 6:
+        o, n = r.choice([(0, 4), (4, 2)])
+        v = int.from_bytes(b[o:o + n], "big")
+        b[o:o + n] = (r.choice([0, 1, v + 1, max(0, v - 1), v + 2, 0xFFFF, v + 50]) & ((1 << (8 * n)) - 1)).to_bytes(n, "big")
+    elif k == "cmap" and len(b) >= 12:
+        c = r.random()
+        n = int.from_bytes(b[2:4], "big")
+        if c < 0.25:
+            b[0:2] = (r.choice([1, 0xFFFF, 256])).to_bytes(2, "big")
+        elif c < 0.45:
+            b[2:4] = (r.choice([0, 1, n + 1, max(0, n - 1), 0xFFFF, 100])).to_bytes(2, "big")
+        elif n:
+            i = r.randrange(n)
+            o = 4 + 8 * i
+            if o + 8 <= len(b):
+                f = r.choice([0, 2, 4])
+                w = 4 if f == 4 else 2
+                v = int.from_bytes(b[o + f:o + f + w], "big")
+                b[o + f:o + f + w] = (r.choice([0, 1, 3, 10, v + 1, max(0, v - 1), len(b), len(b) - 2, len(b) - 4, (1 << (8 * w)) - 1]) & ((1 << (8 * w)) - 1)).to_bytes(w, "big")
+    elif k == "loca" and len(b) >= 4:
+        w = 4 if (len(tabs.get("head", b"")) >= 52 and tabs["head"][51] == 1) else 2
+        n = len(b) // w
+        i = (n - 1 - r.randrange(0, 3)) if r.random() < 0.6 else r.randrange(n)
+        i = max(0, i)
+        v = int.from_bytes(b[i * w:i * w + w], "big")
+        gl = len(tabs.get("glyf", b""))
+        b[i * w:i * w + w] = (r.choice([0, v + 1, max(0, v - 1), gl // (1 if w == 4 else 2), (gl - 10) // (1 if w == 4 else 2), (gl - 9) // (1 if w == 4 else 2), (1 << (8 * w)) - 1]) & ((1 << (8 * w)) - 1)).to_bytes(w, "big")
+    elif b:
+        for _ in range(r.randrange(1, 4)):
+            i = r.randrange(len(b))
+            b[i] = r.choice([0, 1, 0xFF, b[i] ^ (1 << r.randrange(8)), r.randrange(256)])
+    tabs[k] = bytes(b)
+    return tabs
+
+
+def gen_name_table(r):
+    """-> (platform, encoding, table bytes, queries): a name table with Mac and Windows records (sorted as the format wants), usually with
+    a count, the string offset, a record's offset or length or the table's length changed"""
+    recs = []
+    nmac = r.choice([0, 0, 1, 3])
+    nwin = r.choice([0, 1, 1, 2, 5, 9])
+    strings = bytearray()
+    def add(pl, en, lang, nid):
+        txt = "".join(r.choice("abcXYZ é") for _ in range(r.randrange(0, 7))).encode("utf-16-be")
+        if r.random() < 0.08:
+            txt += struct.pack(">H", r.choice([0xD800, 0xDBFF, 0xDC00, 0xDFFF]))
+        recs.append([pl, en, lang, nid, len(txt), len(strings)])
+        strings.extend(txt)
+    for _ in range(nmac):
+        add(1, 0, r.choice([0, 1]), r.randrange(256, 260))
+    for _ in range(nwin):
+        add(3, 1, r.choice([0x409, 0x409, 0x809, 0x40C, 0x0C0C, 0x411]), r.randrange(256, 260))
+    if r.random() < 0.2:
+        add(3, 10, 0x409, 256)
+    recs.sort(key=lambda x: (x[0], x[1], x[2], x[3]))
+    count = len(recs)
+    off = 6 + 12 * count
+    k = r.random()
+    if k < 0.15:
+        count = max(0, count + r.choice([-1, 1, 2, 100, 0xFFFF - count]))
+    elif k < 0.3:
+        off = max(0, off + r.choice([-1, -12, 1, 12, 1000, -off]))
+    elif k < 0.5 and recs:
+        x = r.choice(recs)
+        f = r.choice([4, 5])
+        x[f] = max(0, x[f] + r.choice([-2, -1, 1, 2, 3, 100, 0xFFFF - x[f]])) & 0xFFFF
+    tab = struct.pack(">HHH", 0, count & 0xFFFF, off & 0xFFFF) + b"".join(struct.pack(">6H", *[v & 0xFFFF for v in x]) for x in recs) + bytes(strings)
+    if 0.5 <= k < 0.65:
+        tab = tab[: r.choice([0, 5, 6, 17, 18, 19, 6 + 12 * len(recs), 6 + 12 * len(recs) + 1, max(0, len(tab) - 1), r.randrange(len(tab) + 1)])]
+    qs = [(r.choice([0x409, 0x809, 0x40C, 0x0C0C, 0x411, 0, 1, 0x109]), r.randrange(255, 261)) for _ in range(8)]
+    pl, en = r.choice([(3, 1), (3, 1), (3, 1), (1, 0), (3, 10), (0, 3)])
+    return pl, en, tab, qs
